@@ -67,6 +67,17 @@ func H_overlay() {
 	ow, err := overlay.NewOverlayWriter(bytes.NewReader(old), 0, &ovl, 0)
 	hlib.Must(err, "NewOverlayWriter")
 	pos, writes, flushes := 0, 0, 0
+	if rt.HasParam("pre") && rt.Param("pre") == 1 {
+		// a checkpoint taken before any byte of new content was written, then a new session
+		rt.Assert(ow.Flush() == nil, "Flush returns no error")
+		ro, oo := ow.ReadOffset(), ow.OverlayOffset()
+		rt.Assert(ro == 0, "nothing consumed before the first write")
+		ovl.Truncate(int(oo))
+		r := bytes.NewReader(old)
+		r.Seek(ro, io.SeekStart)
+		ow, err = overlay.NewOverlayWriter(r, ro, &ovl, oo)
+		hlib.Must(err, "NewOverlayWriter (resumed before the first write)")
+	}
 	for pos < nnew {
 		n := hlib.Min(chunk, nnew-pos)
 		_, err := ow.Write(neu[pos : pos+n])
